@@ -274,7 +274,7 @@ func init() {
 					if c.Tier != "thorough" && fam.name == "n2" && k%2 == 1 {
 						continue // quick: the fully braced rendering of the largest family is left to thorough
 					}
-					if k&0xFFF == 0 && c.Expired() {
+					if c.Due(0xFFF) {
 						c.Note("deadline hit in family " + fam.name)
 						return
 					}
